@@ -1,6 +1,7 @@
 INIT Init
 NEXT Next
 INVARIANT C32_StillBackedOff
+INVARIANT C32_GraftInBackoffPenalised
 INVARIANT C28_AddedNotBackedOff
 CONSTRAINT Progress
 POSTCONDITION Accepted
